@@ -109,6 +109,18 @@ def anon_module(r, tag):
     return "\n".join(L) + "\n"
 
 
+def same_name_jobs():
+    """Variants that share every file NAME but differ in contents (of the main file or of the import)."""
+    imp_a = "struct Imp:\n  0 [+1]  UInt  v\n"
+    imp_b = "struct Imp:\n  0 [+2]  UInt  v\n  2 [+1]  bits:\n    0 [+3]  UInt  lo\n"
+    main1 = '[(cpp) namespace: "one::ns"]\nimport "imp.emb" as imp\nstruct Top:\n  0 [+4]  imp.Imp  a\n  4 [+1]  bits:\n    0 [+1]  Flag  f\n'
+    main2 = main1.replace("one::ns", "two::ns")
+    main3 = '[(cpp) namespace: "one::ns"]\nimport "imp.emb" as imp\nstruct Top:\n  0 [+4]  imp.Imp  a\n  4 [+2]  UInt  extra\n'
+    main4 = main1.replace("imp.Imp  a", "imp.Nope  a")          # rejected
+    variants = [(main1, imp_a), (main2, imp_a), (main1, imp_b), (main3, imp_a), (main4, imp_a), (main3, imp_b), (main1, imp_a)]
+    return [{"id": "same:%d" % i, "files": {"m.emb": m, "imp.emb": im}, "main": "m.emb"} for i, (m, im) in enumerate(variants)]
+
+
 OUT_KINDS = ("status", "stage", "ir_sha", "header_sha", "formatted", "formatted_nosrc")
 
 
@@ -322,6 +334,10 @@ def run(ctx):
         tasks[("probe", 0)] = ex.submit(worker_run, ctx, "probe", probe_ids, seeds[0], ["modules", "state"], 1)
         for k, sel in enumerate(seq_orders):
             tasks[("seq", k)] = ex.submit(worker_run, ctx, "seq%d" % k, sel, seeds[1 + k], ["modules", "state"], 1)
+        sn_jobs = same_name_jobs()
+        tasks[("same", "seq")] = ex.submit(worker_run, ctx, "same_seq", sn_jobs + list(reversed(sn_jobs)), seeds[0], ["ir"], 1)
+        for i, j in enumerate(sn_jobs):
+            tasks[("same", i)] = ex.submit(worker_run, ctx, "same_%d" % i, [j], seeds[0], ["ir"], 1)
         table_seeds = [0, 3, 4, 11] if thorough else [0, 3]
         for ts in table_seeds:
             tasks[("tables", ts)] = ex.submit(worker_run, ctx, "tables%d" % ts, [], ts, ["parser_tables"], 1)
@@ -432,6 +448,28 @@ def run(ctx):
                "(%d modules)" % (d, jid, len(il_bad)), by_id[jid],
                {"differs": d, "compiled_before": [j["id"] for j in order_b[: [j["id"] for j in order_b].index(jid)]][-5:],
                 "output_a": (a.get("formatted") or "")[:1500], "output_b": (b.get("formatted") or "")[:1500]})
+
+    # ---- (3b) same file names, different contents: in one process vs each in a fresh process
+    sn_seq = res[("same", "seq")]["runs"][0]
+    sn_bad = []
+    for pos, r in enumerate(sn_seq):
+        i = int(r["id"].split(":")[1])
+        fresh = res[("same", i)]["runs"][0][0]
+        ctx.case(("same-name", pos), nontrivial=True)
+        d = first_diff(fresh, r, canon=True)
+        if d:
+            sn_bad.append((pos, i, d, fresh, r))
+    ctx.obligation("same names, different contents: %d compilations in one process equal the fresh-process results" % len(sn_seq), not sn_bad)
+    if sn_bad:
+        pos, i, d, fresh, r = sn_bad[0]
+        job = sn_jobs[i]
+        ctx.violation("history-dependent-output:" + d,
+                      "%s of a module differs from the fresh-process result after modules with the SAME file names but other contents "
+                      "were compiled in the process (step %d of the sequence)" % (d, pos),
+                      dict(kind="emb-sequence", main="m.emb", files=job["files"],
+                           compiled_before=[dict(x["files"]) for x in (sn_jobs + list(reversed(sn_jobs)))[max(0, pos - 3):pos]],
+                           output_fresh=(fresh.get("formatted") or fresh.get("header_canon_sha") or "")[:1500],
+                           output_in_sequence=(r.get("formatted") or r.get("header_canon_sha") or "")[:1500]), found_input=True)
 
     # ---- (4) the state model ---------------------------------------------------------
     probe = res[("probe", 0)]["runs"][0]
